@@ -153,7 +153,7 @@ SEARCHERS = ("snp", "rnp", "ckk", "cg", "dp", "cbldm")
 
 
 def draw_call(rng, pool, force_alg=None):
-    if force_alg is None and rng.random() < 0.012:
+    if force_alg is None and rng.random() < 0.006:
         # a LARGER integer program (10 items x 5 bins, or 11-13 items x 4 bins: 50 or more integer variables): solver options that depend on the model size (threads, presolve,
         # cut passes) are only switched on here; the call is always repeated at once and compared with the fresh state
         k = rng.choice([5, 5, 4])
@@ -290,6 +290,7 @@ def run_shard(spec, rng, ctx):
                 try:
                     from rv.harness import Ctx
                     cctx = Ctx(ctx.prop, spec)
+                    cctx.debug_logging = getattr(ctx, "debug_logging", False)
                     crng = random.Random(seed)
                     run_history(crng, make_pool(crng), zy, cctx, crng.randint(20, 90))
                     cctx.counters["histories"] += 1
